@@ -407,6 +407,12 @@ def check(prop, tier, base_seed):
     print(f'[{prop}] tier={tier} VERIF_SEED={base_seed} repo={REPO_DIR}', flush=True)
     records, errors, wall = run_batch(prop, tier, base_seed)
     notes = []
+    planned = propinfo.INFO[prop]['quick_runs'] if tier == 'quick' else None
+    if planned and len(records) < planned and not errors and all(r['result']['ok'] for r in records.values()):
+        notes.append(
+            f'NOTE batch cut by the wall budget after {len(records)} of {planned} planned runs (loaded machine); '
+            'the runs executed are the same runs a full batch starts with'
+        )
     known = load_known_findings()
     violations = [records[i] for i in sorted(records) if not records[i]['result']['ok'] and not records[i]['result'].get('error')]
     real = []
